@@ -23,6 +23,11 @@ ALT_TAG = hashlib.sha1(REPO.encode()).hexdigest()[:8] if ALT else ""
 HARNESS_DIR = f"{BUILD}/alt-{ALT_TAG}/harness" if ALT else f"{ROOT}/harness"
 CARGO_TARGET = f"{BUILD}/alt-{ALT_TAG}/cargo-target" if ALT else f"{BUILD}/cargo-target"
 HARNESS_BIN = f"{CARGO_TARGET}/release/harness"
+# the deep-nesting child of C03 compiled WITHOUT optimisation (harness-deep/); the harness finds it here
+DEEP_DIR = f"{BUILD}/alt-{ALT_TAG}/harness-deep" if ALT else f"{ROOT}/harness-deep"
+DEEP_TARGET = f"{BUILD}/alt-{ALT_TAG}/deep-target" if ALT else f"{BUILD}/deep-target"
+DEEP_BIN = f"{DEEP_TARGET}/debug/harness-deep"
+os.environ["VERIF_DEEP_BIN"] = DEEP_BIN
 # VERIF_OUT (default the framework root): where evidence/ and replays/ are written
 OUT = os.environ.get("VERIF_OUT") or ROOT
 DRIVER_BIN = f"{BUILD}/ocaml/driver"
@@ -139,6 +144,17 @@ def ensure_harness():
             ct = open(f"{HARNESS_DIR}/Cargo.toml").read().replace('path = "/repo"', f'path = "{REPO}"')
             open(f"{HARNESS_DIR}/Cargo.toml", "w").write(ct)
         rc, out = sh("cargo build --release --offline 2>&1", cwd=HARNESS_DIR, env=env, timeout=1800)
+        if rc == 0:
+            if ALT:
+                os.makedirs(DEEP_DIR, exist_ok=True)
+                sh(["rsync", "-a", "--delete", f"{ROOT}/harness-deep/", DEEP_DIR + "/"], check=True)
+                ct = open(f"{DEEP_DIR}/Cargo.toml").read().replace('path = "/repo"', f'path = "{REPO}"')
+                open(f"{DEEP_DIR}/Cargo.toml", "w").write(ct)
+                ms = open(f"{DEEP_DIR}/src/main.rs").read().replace('"../../harness/src/deep.rs"', f'"{ROOT}/harness/src/deep.rs"')
+                open(f"{DEEP_DIR}/src/main.rs", "w").write(ms)
+            env2 = {"CARGO_NET_OFFLINE": "true", "CARGO_TARGET_DIR": DEEP_TARGET}
+            rc, out2 = sh("cargo build --offline 2>&1", cwd=DEEP_DIR, env=env2, timeout=1800)
+            out += out2
         return rc == 0, out
 
 
